@@ -69,7 +69,7 @@ def run(req):
     if op == 'compile-custom':
         n, shape = req['n'], req['shape']
         body = {'fib': ':--c{a}, :--c{b}', 'nest': ':is(:--c{a}) > :--c{b}', 'not': 'p:not(:--c{a}):--c{b}',
-                'line': 'p > :--c{a}'}[shape]
+                'line': 'p > :--c{a}', 'double': 'p:--c{a}, :--c{a}.x', 'twice': ':--c{a}:--c{a}'}[shape]
         custom = {f':--c{i}': body.format(a=i + 1, b=i + 2) for i in range(n)}
         custom[f':--c{n}'] = 'a'
         custom[f':--c{n + 1}'] = 'b'
